@@ -440,6 +440,8 @@ class LogicalLinkController(object):
                         log.debug("closing service access point %d" % i)
                         self.sap[i].shutdown()
                         self.sap[i] = None
+                # all sockets are closed, no service name is bound now
+                self.snl = dict({b"urn:nfc:sn:sdp": 1})
                 self.link.SHUTDOWN = True
 
     def exchange(self, send_pdu, timeout):
